@@ -858,7 +858,10 @@ pub fn run_history(m: &'static Module, history: &[Event], opts: &ExecOpts) -> Ru
                                 format!("{}", len0)
                             );
                         }
-                        if v != exp {
+                        let norm = |l: &[(i128, &'static str)]| -> Vec<(i128, &'static str)> {
+                            l.iter().map(|(d, s)| (*d, s.strip_prefix("r#").unwrap_or(s))).collect()
+                        };
+                        if norm(&v) != norm(&exp) {
                             fail!(
                                 "zip",
                                 Some(Kind::Names),
